@@ -170,8 +170,11 @@ def main(check_name, tier, replay=None):
     if partial:
         from vf import universe as _U
 
-        items = [it for it in items if isinstance(it, str) and it[:1] == "Z" and partial in _U.case_doc(it)]
-        print(f"partial baseline: {len(items)} universe documents contain {partial!r}")
+        if partial.startswith("@"):  # @<prefix>: the cases of one check-local family
+            items = [it for it in items if isinstance(it, str) and it.startswith(partial[1:])]
+        else:
+            items = [it for it in items if isinstance(it, str) and it[:1] == "Z" and partial in _U.case_doc(it)]
+        print(f"partial baseline: {len(items)} cases selected by {partial!r}")
     canon = getattr(mod, "canon_signature", None)
     base = findings.load_baseline(mod.BASELINE, canon) if getattr(mod, "BASELINE", None) else None
     base_b = findings.load_baseline(mod.BASELINE + ".B", canon) if getattr(mod, "BASELINE", None) else None
